@@ -524,15 +524,17 @@ def work(task):
                 secondary = None if mask == 0 and code % 2 == 0 else [j for j in range(C) if mask >> j & 1]
                 eval_pair(D, matrix, "list", None, secondary, level, acc)
             if R and C:
-                for mask in sorted({0, masks[code % len(masks)]}):
+                # inner contracts: two secondary masks per matrix (lite level: one, and cover/uncover sequences on
+                # every 4th matrix only; the search-restores run is kept on every matrix)
+                for mask in sorted({0, masks[code % len(masks)]}) if level != "lite" else (masks[code % len(masks)],):
                     secondary = [j for j in range(C) if mask >> j & 1]
-                    v, n = check_links(D, matrix, None, secondary, link_seqs(C, code, level))
+                    v, n = check_links(D, matrix, None, secondary, link_seqs(C, code, level)) if level != "lite" or code % 4 == 0 else ([], 0)
                     if v is None:
                         acc["links_skipped"] += 1
                     else:
                         acc["link_evals"] += n
                         acc["viol"] += v
-                    for cfg in ((True, None, None), (True, None, 5), (False, None, 3)):
+                    for cfg in ((True, None, None), (True, None, 5), (False, None, 3)) if level != "lite" else ((True, None, None),):
                         v = check_search_restores(D, matrix, None, secondary, cfg)
                         if v is not None:
                             acc["restore_evals"] += 1
